@@ -464,18 +464,26 @@ def decide(prop, tier, seed, units, results, wall):
         suffix = "" if v["confirmed"] else " no-failing-input-found"
         lines.append("VIOLATION property=%s replay=%s obligation=%s::%s%s" % (
             prop, os.path.relpath(fn, VERIF) if OUT == VERIF else fn, v["unit"], v["obligation"], suffix))
+    # units that went through completely (every obligation discharged / every case passed, nothing degraded)
+    und_tags = {t for t, _, _ in undecided} | {t for t, _, _ in degraded}
+    clean = [r for r in results if r["status"] == "ok" and (r["samples"] > 0 or r["obligations"]) and not r["sample_failures"]
+             and (r["unit"] + (("[" + ",".join("%s=%s" % kv for kv in sorted(r["params"].items())) + "]") if r["params"] else "")) not in und_tags]
+    # a unit that explored nothing because its contract or its stand-ins do not bind to the tree it was given leaves the CHECK
+    # undecided only if no unit of the property went through; a unit that generated no obligation at all (vacuous) always does
+    hard = [u for u in undecided if u[1] == "vacuous"]
     if crashes:
         code = 3
     elif nv:
         code = 1
-    elif undecided:
+    elif undecided and (STRICT or hard or not clean):
         code = 2
     else:
         code = 0
     if nv:
         code = 1
     for tag, st, err in undecided:
-        lines.append("UNDECIDED %s: %s: %s" % (tag, st, (err or "").strip().splitlines()[-1] if err else ""))
+        lines.append("UNDECIDED %s: %s: %s%s" % (tag, st, (err or "").strip().splitlines()[-1] if err else "",
+                                               "" if code == 2 else " -- explored nothing on this tree; %d other unit(s) of the property went through" % len(clean)))
     for tag, st, err in degraded:
         lines.append("DEGRADED %s: not proved on this tree (%s: %s); the same contract held on every concrete execution of the "
                      "real code made by this run" % (tag, st, (err or "").strip().splitlines()[-1] if err else ""))
